@@ -97,6 +97,8 @@ impl<T: Bounded> BVH<T> {
             id += 2;
             // Procesar stack de pendientes de dividir
             while !pending.is_empty() {
+                #[cfg(cteenergymodel_verif)]
+                crate::verif_hooks::point("fuel:bvh:nodes");
                 let TreeElement(c_id, _c_type, c_side, c_maybe_parent_id, c_maybe_elems) =
                     pending.pop().unwrap();
                 let c_elems = c_maybe_elems.unwrap();
@@ -139,6 +141,8 @@ impl<T: Bounded> BVH<T> {
         // Vamos añadiendo los nodos que tenemos a sus elementos padre y
         // a medida que los completamos los añadimos a sus respectivos padres
         while node_list.len() > 1 {
+            #[cfg(cteenergymodel_verif)]
+            crate::verif_hooks::point("fuel:bvh:build");
             // Con nodo intermedio elems es None, y tiene datos en nodos terminales
             let TreeElement(id, _type, side, maybe_parent_id, elems) = node_list.pop().unwrap();
             let parent_id = maybe_parent_id.unwrap();
@@ -366,6 +370,8 @@ impl<'a, T: Bounded> Iterator for PreorderIter<'a, T> {
 
     fn next(&mut self) -> Option<Self::Item> {
         while let Some(node) = self.stack.pop() {
+            #[cfg(cteenergymodel_verif)]
+            crate::verif_hooks::point("fuel:bvh:iter");
             if node.aabb().intersects(&self.ray).is_some() {
                 if let BVHNode::Node { right, left, .. } = node {
                     if let Some(r_node) = &right {
